@@ -46,6 +46,104 @@ def replace_chain(expr):
     return list(reversed(chain)), cur
 
 
+def memo_keys(chk, repo, P="C06"):
+    """A result remembered in a module-level table must be keyed by every
+    input it was computed from: the pipeline is run in two compression modes
+    (and with / without digraph variables) on the same text, and tokens of
+    different kinds can carry the same text.  A parameter counts as covered
+    when it is in the key as a whole; if only attributes of it are
+    (`token.value`), every attribute of it the function reads must be."""
+    from ..flow import copy_env, subst
+    n = 0
+    for modname in ("transpile", "lexer", "parse", "helpers"):
+        mod = repo.mod(modname)
+        tables = set()
+        for st in mod.tree.body:
+            tgt = val = None
+            if isinstance(st, ast.Assign) and len(st.targets) == 1:
+                tgt, val = st.targets[0], st.value
+            elif isinstance(st, ast.AnnAssign) and st.value is not None:
+                tgt, val = st.target, st.value
+            if isinstance(tgt, ast.Name) and (
+                    (isinstance(val, ast.Dict) and not val.keys)
+                    or (isinstance(val, ast.Call) and dotted(val.func) in (
+                        "dict", "collections.OrderedDict", "OrderedDict",
+                        "weakref.WeakValueDictionary"))):
+                tables.add(tgt.id)
+        for fn in mod.functions.values():
+            params = [a.arg for a in fn.args.posonlyargs + fn.args.args
+                      + fn.args.kwonlyargs]
+            env = copy_env(fn)
+            for node in ast.walk(fn):
+                key = None
+                if isinstance(node, ast.Assign) and len(node.targets) == 1 \
+                        and isinstance(node.targets[0], ast.Subscript) \
+                        and isinstance(node.targets[0].value, ast.Name) \
+                        and node.targets[0].value.id in tables:
+                    key = node.targets[0].slice
+                    table = node.targets[0].value.id
+                elif isinstance(node, ast.Call) and isinstance(
+                        node.func, ast.Attribute) and node.func.attr == \
+                        "setdefault" and isinstance(node.func.value, ast.Name) \
+                        and node.func.value.id in tables and len(node.args) == 2:
+                    key = node.args[0]
+                    table = node.func.value.id
+                if key is None:
+                    continue
+                n += 1
+                key = subst(key, env)
+                attrs = {}
+                for m in ast.walk(key):
+                    if isinstance(m, ast.Attribute) and isinstance(
+                            m.value, ast.Name):
+                        attrs.setdefault(m.value.id, set()).add(m.attr)
+                whole = set()
+                attr_bases = set()
+                for m in ast.walk(key):
+                    if isinstance(m, ast.Attribute) and isinstance(
+                            m.value, ast.Name):
+                        attr_bases.add(id(m.value))
+                for m in ast.walk(key):
+                    if isinstance(m, ast.Name) and id(m) not in attr_bases:
+                        whole.add(m.id)
+                missing = []
+                for p_ in params:
+                    used_whole = False
+                    used_attrs = set()
+                    for m in ast.walk(fn):
+                        if isinstance(m, ast.Attribute) and isinstance(
+                                m.value, ast.Name) and m.value.id == p_:
+                            used_attrs.add(m.attr)
+                    bases = {id(m.value) for m in ast.walk(fn)
+                             if isinstance(m, ast.Attribute)
+                             and isinstance(m.value, ast.Name)}
+                    for m in ast.walk(fn):
+                        if isinstance(m, ast.Name) and m.id == p_ \
+                                and isinstance(m.ctx, ast.Load) \
+                                and id(m) not in bases:
+                            used_whole = True
+                    if not used_whole and not used_attrs:
+                        continue
+                    if p_ in whole:
+                        continue
+                    if used_whole:
+                        missing.append(p_)
+                        continue
+                    lacking = sorted(used_attrs - attrs.get(p_, set()))
+                    missing += [f"{p_}.{a_}" for a_ in lacking]
+                chk.ob(P + ".memo-key-covers-inputs",
+                       f"{modname}.{fn.name}:{table}[...]", not missing,
+                       f"{fn.name} remembers its result in the module-level "
+                       f"table `{table}` under `{ast.unparse(key)[:50]}`, but "
+                       f"the result also depends on {missing}: a later call "
+                       "that differs only there gets the first answer",
+                       mod.rel, node.lineno,
+                       witness="the same text transpiled with dict_compress "
+                               "on, then off / two tokens of different kinds "
+                               "with the same text")
+    chk.unit("module-level memo tables written", n)
+
+
 def check(chk, repo, tier):
     chk.trusted_base += ["CPython ast", "ast.literal_eval as the python "
                          "string-literal semantics",
@@ -70,10 +168,33 @@ def check(chk, repo, tier):
     olds = [a for a, _ in chain]
     ok = "\\" in olds and "`" in olds and olds.index("\\") < olds.index("`") \
         and dict(chain).get("\\") == "\\\\" and dict(chain).get("`") == "\\`"
-    chk.ob("C06.writer-table", "quotify:str escape chain", ok,
-           f"quotify must escape the backslash first (\\ -> \\\\) and then "
-           f"the back-quote (` -> \\`); found {chain}", EF, qfn.lineno,
-           witness="a string containing \\ or `", sample={"chain": chain})
+    limited = [n for n in ast.walk(arm.body) if isinstance(n, ast.Call)
+               and (dotted(n.func) or "") in ("re.sub", "re.subn")
+               and (len(n.args) >= 4 or any(k.arg == "count"
+                                            for k in n.keywords))]
+    limited += [n for n in ast.walk(arm.body) if isinstance(n, ast.Call)
+                and isinstance(n.func, ast.Attribute)
+                and n.func.attr == "replace" and len(n.args) >= 3]
+    if chain:
+        chk.ob("C06.writer-table", "quotify:str escape chain", ok,
+               f"quotify must escape the backslash first (\\ -> \\\\) and "
+               f"then the back-quote (` -> \\`); found {chain}", EF,
+               qfn.lineno, witness="a string containing \\ or `",
+               sample={"chain": chain})
+    else:
+        chk.info("C06.writer-table", "quotify:str arm",
+                 "not a chain of str.replace calls: the escaping is decided "
+                 "by the interpreted round trip below")
+    chk.ob("C06.writer-escapes-every-occurrence", "quotify:str arm",
+           not limited,
+           "the escaping call is limited by a count ("
+           + (ast.unparse(limited[0])[:60] if limited else "")
+           + "; the 4th positional argument of re.sub is `count`, not "
+           "`flags`): special characters beyond it stay unescaped", EF,
+           limited[0].lineno if limited else qfn.lineno,
+           witness="a string with 17 backslashes")
+
+    memo_keys(chk, repo)
 
     # ---- the stages, interpreted from source ---------------------------------------
     el = it.module("vyxal.elements")
